@@ -358,13 +358,14 @@ def config_plan(ctx, volume=1):
     def four(ts, dims, n_fail, n_ok):
         names = sorted(int(x) for x in g.choice(9, size=4, replace=False))
         arr = all_arrangements(4)
-        def fails(perm, tr):       # a swap at position 1 or 3 of a 4-list is needed somewhere
+        def fails(perm, tr):       # a swap at position 1 or 3 of a 4-list is needed somewhere (head/tail identity of two sizes)
             return perm_needs_outer_swap([names[i] for i in perm], tr)
         bad = [a for a in arr if fails(*a)]
         good = [a for a in arr if not fails(*a) and list(a[0]) != [0, 1, 2, 3]]
         plan.append({"ts": ts, "names": names, "dims": dims, "arr": pick(bad, n_fail, g) + pick(good, n_ok, g)})
     if quick:
         four("SSSS", [2, 2, 2, 2], 1, 0)
+        four("PPPP", [2, 2, 2, 2], 1, 0)
     else:
         four("SSSS", [2, 2, 2, 2], 4, 6)
         four("PPPP", [2, 2, 2, 2], 2, 5)
@@ -844,9 +845,8 @@ def oracle_embed(ctx, volume=1):
 
 
 PARTIAL = [
-    {"theorem": "perm_sorts (unbounded, semantic)", "missing": "the loop invariant 'accumulated matrix · (tensor in the original order) = tensor in the current order' is proved only per step (left_perm_single_swap, typed) and as finite decide tables (calcPermFixed_sorts_table, calcPerm_sorts_table_three); proved unbounded: termination (calcPerm_never_fuel), sortedness of the final order (calcPermLoop_sorted), shape-totality of the product-size version (calcPermFixed_total), coded = product sizes for <= 3 subsystems (calcPermLoop_eq_fixed_le3)"},
-    {"theorem": "calc_permutation_matrix total", "missing": "false on the current tree for >= 4 subsystems (D7: calcPerm_total_fails, calcPerm_four_qubits_table)"},
-    {"theorem": "product_statistics for MProcess⊗MProcess", "missing": "false on the current tree (D7b: mprocess_product_layout_fails); POVM layout proved for the raw list (povm_product_raw_layout), not through the outcome permutation"},
+    {"theorem": "perm_sorts (unbounded, semantic)", "missing": "the loop invariant 'accumulated matrix · (tensor in the original order) = tensor in the current order' is proved per step (left_perm_single_swap, typed) and as finite decide tables (calcPerm_sorts_table_three, calcPerm_sorts_table_four); proved unbounded: totality (calcPerm_total, calcPermLoop_total), termination (calcPerm_never_fuel), sortedness of the final order (calcPermLoop_sorted)"},
+    {"theorem": "product_statistics for MProcess⊗MProcess", "missing": "false on the current tree (D7b open: mprocess_product_layout_fails); POVM layout proved for the raw list (povm_product_raw_layout), not through the outcome permutation"},
     {"theorem": "embed_physical / embed_statistics", "missing": "block structure proved as finite tables for 1 and 2 qutrits (embed_one_block, embed_two_block); PSD/TP preservation and the Kraus round trip of gates/m-processes are checked by the oracle only"},
 ]
 
